@@ -40,6 +40,7 @@ func (o embOutcome) String() string {
 // cheap in steps and unbounded in memory): such cases are skipped and counted.
 func overBudget(pre, stmts []string) bool {
 	rf := ref.New()
+	rf.MaxSize = 20000 // the placements repeat the computation up to a few hundred times and keep the results
 	for _, group := range [][]string{pre, stmts} {
 		for _, st := range group {
 			rr, perr := rf.RunStmt(strings.TrimPrefix(st, "\x01"))
